@@ -261,7 +261,7 @@ def scenarios(tier, seed):
              ("variance_re", {"spaces": one((2, 4), (0.5, 0.3)), "flex": "matern_renorm", "asp": False, "kind": "amplitude"}),
              ("variance", {"spaces": one((4,), (0.5,)), "flex": "matern", "asp": False})]       # known finding
     thorough = [("agree", {"spaces": one((6,), (1.,)), "flex": True, "asp": True}),
-                ("agree", {"spaces": one((3, 3), (0.1, 0.1)), "flex": False, "asp": False}),     # with flexibility / asperity: not finished after 40 min
+                # non-parametric agreement on 3x3 (sqrt(3) twiddle factors, 5 spectral bins) does not finish within 40 minutes: not claimed
                 ("agree", {"spaces": one((4, 4), (1., 2.)), "flex": True, "asp": False}),
                 ("agree", {"spaces": [((4,), (0.5,)), ((4,), (2.,))], "flex": True, "asp": False}),
                 ("variance", {"spaces": [((4,), (0.5,)), ((2, 4), (1., 3.))], "flex": True, "asp": True}),
@@ -297,7 +297,7 @@ META = {
                           "PowerDistributor, HarmonicTransformOperator, ContractionOperator", "nifty.re.correlated_field.{CorrelatedFieldMaker."
                           "add_fluctuations,set_amplitude_total_offset,finalize,NonParametricAmplitude.__call__,hartley,get_fourier_mode_distributor,"
                           "_remove_slope}"],
-    "bounds": {"grids": "1-D 4, 6, 8 pixels; 2-D 2x4, 3x3, 4x4 (4x6 thorough); products of two spaces (4 x 4 quick; 4 x 2x4, 6 x 4 thorough) and of three spaces (4 x 4 x 4, variance clause); concrete distances 0.1 .. 3",
+    "bounds": {"grids": "1-D 4, 6, 8 pixels (2 for Matern); 2-D 2x4, 3x3 (variance, Matern agreement), 4x4 (4x6 thorough); products of two spaces (4 x 4 quick; 4 x 2x4, 6 x 4 thorough) and of three spaces (4 x 4 x 4, variance clause); concrete distances 0.1 .. 3",
                "amplitude": "non-parametric with / without flexibility and asperity: power parametrisation (agreement, classic and JAX variance) and amplitude parametrisation (JAX variance); Matern amplitude: agreement (classic vs JAX with renormalize_amplitude=False), JAX variance with renormalize_amplitude=True in both parametrisations, classic variance (known finding)", "prior means / widths of the hyperparameters": "one concrete set (the latents are symbolic, so every hyperparameter VALUE is covered)"},
     "stubs": ["ducc0 Hartley / FFT kernels = explicit DFT sums with exact twiddle factors (validated against the real kernels in every run, C09)",
               "exp: uninterpreted, > 0, monotone, exp(0) = 1, exp(x) >= 1 + x; applications (and square roots) whose arguments agree as rational functions up to 1e-9 of their largest coefficient are identified "
